@@ -3,11 +3,12 @@ package harness
 import (
 	"fmt"
 	"os"
+	"path/filepath"
 	"reflect"
 	"sort"
 	"strings"
-	"sync"
 	"testing"
+	"time"
 	"unicode"
 
 	"pgregory.net/rapid"
@@ -581,33 +582,56 @@ func runC12Eval(tb report.TB, rep *report.Reporter, c c12EvalCase) {
 	// ---- two requests at once on the same bug (the web UI): one closes or re-opens it, the other comments. Both
 	// are acknowledged; what the queries use afterwards describes the bug after both.
 	if c.Seed%2 == 0 {
-		stop := lockDelays(c.Seed)
 		for round := 0; round < 8; round++ {
 			id := allIds[(int(c.Seed%7)+round)%len(allIds)]
-			var wg sync.WaitGroup
-			for g := 0; g < 2; g++ {
-				wg.Add(1)
-				go func(g int) {
-					defer wg.Done()
-					bc, err := rc.Bugs().Resolve(entity.Id(id))
-					if err != nil {
-						return
-					}
-					if g == 0 {
-						if bc.Snapshot().Status.String() == "open" {
-							_, _ = bc.CloseRaw(authors[0], int64(7000+round), nil)
-						} else {
-							_, _ = bc.OpenRaw(authors[0], int64(7000+round), nil)
-						}
-					} else {
-						_, _, _ = bc.AddCommentRaw(authors[len(authors)-1], int64(7100+round), "said at the same moment", nil, nil)
-					}
-					_ = bc.CommitAsNeeded()
-				}(g)
+			// the schedule is owned: the first request is parked before its K-th acquisition of a cache mutex while
+			// the second one runs (or waits for a lock the first holds), then goes on
+			mark, parked, release, stop := parkAt((int(c.Seed%25) + round*3) % 25)
+			first, second := make(chan struct{}), make(chan struct{})
+			go func() {
+				defer close(first)
+				mark()
+				bc, err := rc.Bugs().Resolve(entity.Id(id))
+				if err != nil {
+					return
+				}
+				if bc.Snapshot().Status.String() == "open" {
+					_, _ = bc.CloseRaw(authors[0], int64(7000+round), nil)
+				} else {
+					_, _ = bc.OpenRaw(authors[0], int64(7000+round), nil)
+				}
+				_ = bc.CommitAsNeeded()
+			}()
+			select {
+			case <-parked:
+			case <-first:
+			case <-time.After(20 * time.Second):
 			}
-			wg.Wait()
+			go func() {
+				defer close(second)
+				bc, err := rc.Bugs().Resolve(entity.Id(id))
+				if err != nil {
+					return
+				}
+				_, _, _ = bc.AddCommentRaw(authors[len(authors)-1], int64(7100+round), "said at the same moment", nil, nil)
+				_ = bc.CommitAsNeeded()
+			}()
+			select {
+			case <-second:
+			case <-time.After(150 * time.Millisecond):
+			}
+			release()
+			for _, ch := range []chan struct{}{first, second} {
+				select {
+				case <-ch:
+				case <-time.After(30 * time.Second):
+					stop()
+					fail("simultaneous-requests-never-return", fmt.Sprintf("round %d on bug %s", round, id))
+					return
+				}
+			}
+			stop()
 		}
-		stop()
 	}
 	// ---- reference population, read from git without the cache
 	idents := map[string]refIdent{}
@@ -923,6 +947,92 @@ func runC12Build(tb report.TB, rep *report.Reporter, c c12BuildCase) {
 			}
 		}
 	}
+}
+
+// runC12Ghost: "exactly the bugs that satisfy it" also means no bug that does not exist. A cache directory left by an
+// earlier run lists a bug whose reference is gone since (deleted with stock git, pruned, a removal that died half-way)
+// and its index directory is lost: the next run rebuilds, and no query returns the bug that is not there.
+func runC12Ghost(tb report.TB, rep *report.Reporter, c c12BuildCase) {
+	entropy.Seed(c.Seed)
+	defer entropy.Restore()
+	dir := mkdirTemp("c12g-")
+	defer os.RemoveAll(dir)
+	repo, err := repository.InitGoGitRepo(dir, "git-bug")
+	if err != nil {
+		tb.Fatalf("harness: %v", err)
+	}
+	rc, err := cache.NewRepoCacheNoEvents(repo)
+	if err != nil {
+		tb.Fatalf("harness: %v", err)
+	}
+	me, err := rc.Identities().New("ghost hunter", "g@example.org")
+	if err == nil {
+		err = rc.SetUserIdentity(me)
+	}
+	if err != nil {
+		tb.Fatalf("harness: %v", err)
+	}
+	n := 2 + c.N%6
+	var ids []string
+	for k := 0; k < n; k++ {
+		bc, _, err := rc.Bugs().NewRaw(me, int64(1000+k), fmt.Sprintf("about spectre%dq%d", k, c.Seed%89), "body", nil, nil)
+		if err != nil {
+			tb.Fatalf("harness: %v", err)
+		}
+		ids = append(ids, string(bc.Id()))
+	}
+	if err := rc.Close(); err != nil {
+		tb.Fatalf("harness: %v", err)
+	}
+	_ = repo.Close()
+	gone := ids[int(c.Seed%uint64(n))]
+	if res := RunGit(dir, "update-ref", "-d", "refs/bugs/"+gone); res.Code != 0 {
+		tb.Fatalf("harness: update-ref -d: %s", res.Out)
+	}
+	lostIndex := c.Seed%3 != 0
+	if lostIndex {
+		_ = os.RemoveAll(filepath.Join(dir, ".git", "git-bug", "indexes"))
+	}
+	rep.Case(fmt.Sprintf("ghost|n%d|index-lost=%v", n, lostIndex), lostIndex, []string{fmt.Sprintf("index-directory-lost:%v", lostIndex)}, c)
+	repo2, err := repository.OpenGoGitRepo(dir, "git-bug", nil)
+	if err != nil {
+		tb.Fatalf("harness: %v", err)
+	}
+	defer repo2.Close()
+	rc2, err := cache.NewRepoCacheNoEvents(repo2)
+	if err != nil {
+		rep.Fail(tb, "C12/ghost/cache-does-not-open/"+Normalize(err.Error()), err.Error(), c)
+		return
+	}
+	defer rc2.Close()
+	if !lostIndex {
+		return // the cache files are taken as they are: whether a run notices a reference deleted behind its back is not the subject
+	}
+	for _, text := range []string{"", "status:open", "status:open sort:creation-asc", "title:spectre", "author:ghost"} {
+		q, err := query.Parse(text)
+		if err != nil {
+			tb.Fatalf("harness: %v", err)
+		}
+		got, err := rc2.Bugs().Query(q)
+		if err != nil {
+			rep.Fail(tb, "C12/ghost/query-fails/"+Normalize(err.Error()), text+": "+err.Error(), c)
+			return
+		}
+		for _, g := range got {
+			if string(g) == gone {
+				rep.Fail(tb, "C12/ghost/query-returns-a-bug-that-does-not-exist", fmt.Sprintf("refs/bugs/%s was deleted and the index directory lost before this run rebuilt its cache; query %q returns it among %d bugs (git holds %d)", gone[:8], text, len(got), n-1), c)
+				return
+			}
+		}
+		if len(got) != n-1 {
+			rep.Fail(tb, "C12/ghost/wrong-result-count", fmt.Sprintf("query %q returns %d bugs, git holds %d", text, len(got), n-1), c)
+			return
+		}
+	}
+}
+
+func TestC12GhostAfterRebuild(t *testing.T) {
+	Drive(t, "C12", genC12Build, runC12Ghost)
 }
 
 func TestC12SearchAfterBuild(t *testing.T) {
